@@ -26,9 +26,17 @@ type verifSys struct {
 	nodes []*verifSysNode
 	peers []*peers.Peer
 	txSeq []int
+	// lost: transactions that were only in a node's pool when the process was
+	// killed (C11): they are gone with the process and skipped by the order check
+	lost map[string]bool
 }
 
 func verifNewSys(n int) *verifSys {
+	return verifNewSysOn(n, func(int) hg.Store { return hg.NewInmemStore(1000) })
+}
+
+// verifNewSysOn: as verifNewSys, with the store of node i made by mk(i).
+func verifNewSysOn(n int, mk func(i int) hg.Store) *verifSys {
 	s := &verifSys{}
 	for i := 0; i < n; i++ {
 		s.peers = append(s.peers, verifPeer(i))
@@ -45,7 +53,7 @@ func verifNewSys(n int) *verifSys {
 			}
 			return proxy.CommitResponse{StateHash: []byte{byte(len(node.blocks))}, InternalTransactionReceipts: receipts}, nil
 		}
-		node.c = newCore(NewValidator(verifKey(i), fmt.Sprintf("node%d", i)), set, set, hg.NewInmemStore(1000), cb, false, verifLogger())
+		node.c = newCore(NewValidator(verifKey(i), fmt.Sprintf("node%d", i)), set, set, mk(i), cb, false, verifLogger())
 		node.c.setHeadAndSeq()
 		s.nodes = append(s.nodes, node)
 		s.txSeq = append(s.txSeq, 0)
@@ -132,6 +140,9 @@ func (s *verifSys) checkInvariants(step int) {
 			for _, tx := range b.Transactions() {
 				if len(tx) == 2 {
 					c := int(tx[0])
+					for s.lost[string([]byte{byte(c), byte(next[c])})] {
+						next[c]++
+					}
 					verifAssert("creators-transactions-committed-once-in-order", int(tx[1]) == next[c])
 					next[c] = int(tx[1]) + 1
 				}
